@@ -246,3 +246,78 @@ theorem reinsert_split_map {α β : Type} (isParam : β → Bool) (f : β → α
   intro sp
   have h := reinsert_split (cs.map (fun c => (isParam c, f c)))
   simpa [List.map_map, Function.comp_def] using h
+
+/-! ### (g) hoisting array declarations in `serialize`
+
+`insertAll l k b` is, literally, `for idx, line in enumerate(b): script.insert(k + idx, line)` on `script = l`
+(`b.zipIdx` is `enumerate(b)` with the pairs as `(line, idx)`); `serialize` then does `array_insert += len(b)`.
+`k ≤ l.length` always holds there (`array_insert` counts header lines already in `script`); for `k > l.length`
+Python's `insert` would append whereas `List.insertIdx` leaves the list unchanged, so the hypothesis is needed. -/
+
+def insertAll {α : Type} (l : List α) (k : ℕ) (b : List α) : List α :=
+  (b.zipIdx).foldl (fun acc p => acc.insertIdx (k + p.2) p.1) l
+
+/-- the invariant of the insertion loop: after `s` lines the next line goes right behind `pre`, `pre.length = k + s` -/
+theorem insertAll_aux {α : Type} (k : ℕ) :
+    ∀ (b : List α) (s : ℕ) (pre post : List α), pre.length = k + s →
+      (b.zipIdx s).foldl (fun acc p => acc.insertIdx (k + p.2) p.1) (pre ++ post) = pre ++ b ++ post := by
+  intro b
+  induction b with
+  | nil => intro s pre post _; simp
+  | cons a t ih =>
+    intro s pre post hlen
+    simp only [List.zipIdx_cons, List.foldl_cons]
+    rw [← hlen, insertIdx_length_append a post pre]
+    have h := ih (s + 1) (pre ++ [a]) post (by simp [hlen]; omega)
+    simpa [List.append_assoc] using h
+
+/-- (g) inserting the lines of `b` one by one at `k, k+1, …` splices the block `b` in at position `k` -/
+theorem insertAll_eq_splice {α : Type} (l : List α) (k : ℕ) (b : List α) (hk : k ≤ l.length) :
+    insertAll l k b = l.take k ++ b ++ l.drop k := by
+  have h := insertAll_aux k b 0 (l.take k) (l.drop k) (by simp [List.length_take, Nat.min_eq_left hk])
+  rw [List.take_append_drop] at h
+  exact h
+
+/-- the same with the split of the script given: header `pre`, rest `post` -/
+theorem insertAll_append {α : Type} (pre post b : List α) :
+    insertAll (pre ++ post) pre.length b = pre ++ b ++ post :=
+  insertAll_aux pre.length b 0 pre post rfl
+
+theorem insertAll_length {α : Type} (l : List α) (k : ℕ) (b : List α) (hk : k ≤ l.length) :
+    (insertAll l k b).length = l.length + b.length := by
+  rw [insertAll_eq_splice l k b hk]
+  simp only [List.length_append, List.length_take, List.length_drop, Nat.min_eq_left hk]
+  omega
+
+/-- (g) two arrays in a row: block `b1` at `k`, then `b2` at `k + len(b1)`; the declarations end up behind the
+    header in order of first use -/
+theorem hoist_two {α : Type} (l : List α) (k : ℕ) (b1 b2 : List α) (hk : k ≤ l.length) :
+    insertAll (insertAll l k b1) (k + b1.length) b2 = l.take k ++ b1 ++ b2 ++ l.drop k := by
+  rw [insertAll_eq_splice l k b1 hk]
+  have h := insertAll_append (l.take k ++ b1) (l.drop k) b2
+  rw [List.length_append, List.length_take, Nat.min_eq_left hk] at h
+  exact h
+
+/-- (g) any number of arrays: hoisting the blocks `bs` one after the other, each behind the previous one
+    (`array_insert += len(bb_array)`), puts their concatenation at `k` -/
+theorem hoist_all {α : Type} (k : ℕ) :
+    ∀ (bs : List (List α)) (l : List α), k ≤ l.length →
+      (bs.foldl (fun st b => (insertAll st.1 st.2 b, st.2 + b.length)) (l, k)).1
+        = l.take k ++ bs.flatten ++ l.drop k := by
+  intro bs
+  induction bs using List.reverseRecOn with
+  | nil => intro l _; simp
+  | append_singleton pre b ih =>
+    intro l hk
+    have hpos : ∀ (bs : List (List α)) (st : List α × ℕ),
+        (bs.foldl (fun st b => (insertAll st.1 st.2 b, st.2 + b.length)) st).2 = st.2 + bs.flatten.length := by
+      intro bs
+      induction bs with
+      | nil => intro st; simp
+      | cons c cs ihc => intro st; simp [ihc, Nat.add_assoc]
+    simp only [List.foldl_append, List.foldl_cons, List.foldl_nil, List.flatten_append, List.flatten_cons,
+      List.flatten_nil, List.append_nil]
+    rw [ih l hk, hpos pre (l, k)]
+    have h := insertAll_append (l.take k ++ pre.flatten) (l.drop k) b
+    rw [List.length_append, List.length_take, Nat.min_eq_left hk] at h
+    simpa [List.append_assoc] using h
